@@ -123,3 +123,45 @@ def _(self: QuestionK, survey: SurveyQ, xml_node: XNode, tag: str, nested_items:
         invariant(len(xml_node.kids) == n0 + i)
         invariant(forall(0, n0, lambda j: xml_node.kids[j] == old(xml_node).kids[j]))
         invariant(forall(0, i, lambda j: SetNodeOk(xml_node.kids[n0 + j], survey, tag, nested_items[j])))
+
+
+# ---------------------------------------------------------------- body control skeleton (C02 ref, C04 tag/attributes)
+
+@spec
+def LabelHintNodes(e: ElemK, survey: Ctx) -> List[XNode]:
+    """label and hint nodes of the control (SurveyElement.xml_label_and_hint; the nodes themselves: C06/C07 kernels)."""
+    uninterpreted()
+
+
+@contract("SurveyElement.xml_label_and_hint", module="pyxform.survey_element")
+def _(self: ElemK, survey: SV) -> List[XNode]:
+    trusted("label first, hint second, each built by the proved xml_label / xml_hint; refuses rows without label or hint")
+    ensures(result == LabelHintNodes(self, ctx_of(survey)))
+    may_raise(PyXFormError, when=True)
+
+
+@contract("Question._build_xml")
+def _(self: QuestionK, survey: SurveyQ) -> XNode:
+    properties("C02", "C04")
+    no_native("needs survey-element objects: exercised through the e2e oracles")
+    may_raise(PyXFormError, when=True)
+    Cd = some(self.control)
+    requires(self.control is not None and "tag" in Cd)          # every type-table entry with a control has a tag
+    ensures(result.nodeType == 1 and result.tagName == Cd["tag"])
+    # C04: label and hint come first, nothing else is a child yet
+    ensures(result.kids == LabelHintNodes(self, ctx_of(survey)))
+    # C02: the control's ref is the question's own path (an author-written body::ref column is an explicit override)
+    ensures("ref" in result.attrs and implies("ref" not in Cd, result.attrs["ref"] == XPathOf(self)))
+    # C04: appearance / parameter-derived attributes of the row, after reference substitution; `tag` is not an attribute
+    ensures(forall(0, len(keys(Cd)), lambda q: keys(Cd)[q] == "tag" or (keys(Cd)[q] in result.attrs
+            and result.attrs[keys(Cd)[q]] == Subst(ctx_of(survey), Cd[keys(Cd)[q]], ctx_of(self)))))
+    ensures(forall_str(lambda a: implies(a in result.attrs, a == "ref" or (a in Cd and a != "tag"))))
+
+    @loop(0, index="q")
+    def _():
+        invariant(result.nodeType == 1 and result.tagName == Cd["tag"] and result.kids == LabelHintNodes(self, ctx_of(survey)))
+        invariant("ref" in result.attrs)
+        invariant(implies(not exists(0, q, lambda r: keys(Cd)[r] == "ref"), result.attrs["ref"] == XPathOf(self)))
+        invariant(forall(0, q, lambda r: keys(Cd)[r] == "tag" or (keys(Cd)[r] in result.attrs
+                         and result.attrs[keys(Cd)[r]] == Subst(ctx_of(survey), Cd[keys(Cd)[r]], ctx_of(self)))))
+        invariant(forall_str(lambda a: implies(a in result.attrs, a == "ref" or (a in Cd and a != "tag"))))
